@@ -165,6 +165,27 @@ func run(c *mon.Ctx) {
 			}
 		}
 	})
+	// pairs whose distance is a power of two or one off it (half the timeline, 2^31, 2^16, ...): arithmetic
+	// narrowed to fewer than 33 bits shows here and nowhere near the boundaries
+	c.Exhaustive("distances 2^k-1, 2^k, 2^k+1 for k = 0..32 from every boundary-neighbourhood value", int64(33*3*len(nb)))
+	c.StreamSeedless("power-of-two-distances", 33, func(k int, r *gen.Rand) {
+		for _, dd := range []uint64{1<<uint(k) - 1, 1 << uint(k), 1<<uint(k) + 1} {
+			for j := 0; j < len(nb)+64; j++ {
+				var p uint64
+				if j < len(nb) {
+					p = nb[j]
+				} else {
+					p = r.Uint64() & maxV
+				}
+				q := (p + dd) & maxV
+				pair(c, p, q)
+				pair(c, p, p^(1<<uint(k)))
+				if p != q {
+					c.Class(fmt.Sprintf("pow2/k=%d/%s", k, zone(p)))
+				}
+			}
+		}
+	})
 	c.Stream("random-pairs", c.N(2000, 6000000), func(i int, r *gen.Rand) {
 		for k := 0; k < 500; k++ {
 			p, q := r.Uint64()&maxV, r.Uint64()&maxV
